@@ -571,8 +571,12 @@ impl Run {
         if !self.replay_mode && self.only.is_none() {
             let edir = root.join("evidence");
             let _ = std::fs::create_dir_all(&edir);
-            std::fs::write(edir.join(format!("{}.json", self.property)), serde_json::to_string_pretty(&ev).unwrap())
-                .expect("write evidence");
+            // a property served by several group binaries writes one part per binary; `pvc-merge` joins them
+            let fname = match std::env::var("VERIF_EVIDENCE_PART") {
+                Ok(part) if !part.is_empty() => format!("{}.part-{}.json", self.property, part),
+                _ => format!("{}.json", self.property),
+            };
+            std::fs::write(edir.join(fname), serde_json::to_string_pretty(&ev).unwrap()).expect("write evidence");
         }
         for k in &known {
             if let Some(n) = known_hits.get(&k.id) {
